@@ -361,7 +361,7 @@ def _same_text(x, y, rel):
     import re
     if _NUM_IN_TEXT is None:
         # decimals, exponent forms, and integers too long for a double to hold exactly
-        _NUM_IN_TEXT = re.compile(r'\d+\.\d+(?:[eE][-+]?\d+)?|\d+[eE][-+]?\d+|\d{15,}')
+        _NUM_IN_TEXT = re.compile(r'\d+\.\d+(?:[eE][-+]?\d+)?|\d+[eE][-+]?\d+|\d{16,}')
     px, py = _NUM_IN_TEXT.split(x), _NUM_IN_TEXT.split(y)
     if px != py:
         return False
